@@ -84,12 +84,15 @@ pub enum Kind {
     Disk { subdirs: bool },
     /// MultiLayerCacheImpl over [Memory(1000), Disk]
     Layered,
+    /// cascette-protocol's ProtocolCache over a DiskCache (string keys, sync API bridging to async)
+    Protocol,
 }
 
 enum AnyCache {
     Mem(MemoryCache<SKey>),
     Disk(DiskCache<SKey>, #[allow(dead_code)] Scratch),
     Layered(cascette_cache::MultiLayerCacheImpl<SKey>, #[allow(dead_code)] Scratch),
+    Protocol(cascette_protocol::cache::ProtocolCache, #[allow(dead_code)] Scratch),
 }
 
 impl AnyCache {
@@ -130,6 +133,32 @@ impl AnyCache {
             AnyCache::Mem(c) => run!(c),
             AnyCache::Disk(c, _) => run!(c),
             AnyCache::Layered(c, _) => run!(c),
+            AnyCache::Protocol(c, _) => match op {
+                // called from a thread without a runtime: execute_async blocks on the shared
+                // runtime on the calling thread, so this thread's hooks fire
+                COp::Get(k) | COp::Contains(k) => match c.get(k) {
+                    Ok(Some(b)) => {
+                        if matches!(op, COp::Get(_)) { format!("Some({})", value_name(&b)) } else { "true".into() }
+                    }
+                    Ok(None) => {
+                        if matches!(op, COp::Get(_)) { "None".into() } else { "false".into() }
+                    }
+                    Err(e) => format!("Err({e})"),
+                },
+                COp::Put(k, v) => match c.store_with_ttl(k, &value_bytes(v), Duration::from_secs(3600)) {
+                    Ok(()) => "ok".into(),
+                    Err(e) => format!("Err({e})"),
+                },
+                COp::PutX(k, v) => match c.store_with_ttl(k, &value_bytes(v), Duration::ZERO) {
+                    Ok(()) => "ok".into(),
+                    Err(e) => format!("Err({e})"),
+                },
+                COp::Remove(_) => "false".into(),
+                COp::Clear => match c.clear() {
+                    Ok(()) => "ok".into(),
+                    Err(e) => format!("Err({e})"),
+                },
+            },
         }
     }
     /// None: this cache kind keeps no books the property talks about (layered: per-layer books
@@ -138,14 +167,14 @@ impl AnyCache {
         match self {
             AnyCache::Mem(c) => block_on(c.size()).map(Some).map_err(|e| e.to_string()),
             AnyCache::Disk(c, _) => block_on(c.size()).map(Some).map_err(|e| e.to_string()),
-            AnyCache::Layered(..) => Ok(None),
+            AnyCache::Layered(..) | AnyCache::Protocol(..) => Ok(None),
         }
     }
     fn usage(&self) -> Result<Option<usize>, String> {
         match self {
             AnyCache::Mem(c) => block_on(c.stats()).map(|s| Some(s.memory_usage_bytes)).map_err(|e| e.to_string()),
             AnyCache::Disk(c, _) => block_on(c.stats()).map(|s| Some(s.memory_usage_bytes)).map_err(|e| e.to_string()),
-            AnyCache::Layered(..) => Ok(None),
+            AnyCache::Layered(..) | AnyCache::Protocol(..) => Ok(None),
         }
     }
 }
@@ -164,6 +193,7 @@ impl CacheBody {
             Kind::Memory { .. } => "mem",
             Kind::Disk { .. } => "disk",
             Kind::Layered => "layered",
+            Kind::Protocol => "protocol",
         }
     }
     fn keys(&self) -> Vec<&'static str> {
@@ -316,6 +346,7 @@ impl SchedBody for CacheBody {
             Kind::Memory { max_entries } => format!("MemoryCache(max_entries={max_entries})"),
             Kind::Disk { subdirs } => format!("DiskCache(subdirs={subdirs})"),
             Kind::Layered => "MultiLayerCacheImpl[Memory(1000),Disk]".to_string(),
+            Kind::Protocol => "ProtocolCache(DiskCache)".to_string(),
         };
         format!("{k} setup[{}] tasks[{}]", s.join("; "), t.join(" || "))
     }
@@ -347,6 +378,11 @@ impl SchedBody for CacheBody {
                 // the constructor spawns its (idle) background tasks: it needs a runtime context
                 let c = block_on(async { cascette_cache::MultiLayerCacheImpl::new(cfg) }).expect("multi-layer cache");
                 AnyCache::Layered(c, sc)
+            }
+            Kind::Protocol => {
+                let sc = Scratch::new("c11");
+                let cfg = cascette_protocol::config::CacheConfig { cache_dir: Some(sc.path.join("cache")), ..Default::default() };
+                AnyCache::Protocol(cascette_protocol::cache::ProtocolCache::new(&cfg).expect("protocol cache"), sc)
             }
         };
         let cache = Arc::new(cache);
@@ -826,6 +862,21 @@ fn bodies(tier: Tier) -> Vec<CacheBody> {
                         out.push(CacheBody { kind: disk.clone(), setup: vec![COp::Put("k", "a")], tasks: vec![vec![dsingle[i].clone()], vec![dsingle[j].clone()], vec![dsingle[l].clone()]], evicting: false });
                     }
                 }
+            }
+        }
+    }
+    // ---- ProtocolCache over DiskCache: store/get/clear through the sync bridge
+    let psingle: Vec<COp> = vec![COp::Get("k"), COp::Put("k", "b"), COp::PutX("k", "c"), COp::Clear, COp::Put("j", "d")];
+    for pre in [vec![], vec![COp::Put("k", "a")]] {
+        for i in 0..psingle.len() {
+            for j in i..psingle.len() {
+                if matches!(psingle[i], COp::Get(_)) && matches!(psingle[j], COp::Get(_)) {
+                    continue;
+                }
+                if tier == Tier::Quick && (i + j) % 2 == 1 {
+                    continue;
+                }
+                out.push(CacheBody { kind: Kind::Protocol, setup: pre.clone(), tasks: vec![vec![psingle[i].clone()], vec![psingle[j].clone()]], evicting: false });
             }
         }
     }
